@@ -174,6 +174,81 @@ fn platform_names(n: c_int) -> Vec<String> {
     v
 }
 
+/// A terminating signal that arrives while the process is stopped by a stop signal: once continued, the process dies of it.
+/// `emulated`: both signals go through conditional-default actions of the library instead of the kernel's dispositions.
+fn stop_then_term(emulated: bool, stop_sig: c_int, term_sig: c_int) -> Outcome {
+    unsafe {
+        let mut ready = [0i32; 2];
+        libc::pipe(ready.as_mut_ptr());
+        let pid = libc::fork();
+        if pid == 0 {
+            libc::close(ready[0]);
+            no_core();
+            own_group();
+            all_default_and_unblocked();
+            if emulated {
+                let on = std::sync::Arc::new(std::sync::atomic::AtomicBool::new(true));
+                let a = signal_hook::flag::register_conditional_default(stop_sig, on.clone());
+                let b = signal_hook::flag::register_conditional_default(term_sig, on);
+                if a.is_err() || b.is_err() {
+                    libc::_exit(20);
+                }
+            }
+            libc::write(ready[1], b"r".as_ptr() as *const _, 1);
+            // alive for a while, then give up (the parent reads that as "survived")
+            for _ in 0..300 {
+                libc::usleep(10_000);
+            }
+            libc::_exit(42);
+        }
+        let mut status = 0;
+        libc::close(ready[1]);
+        let mut b = [0u8; 1];
+        libc::read(ready[0], b.as_mut_ptr() as *mut _, 1);
+        libc::close(ready[0]);
+        libc::kill(pid, stop_sig);
+        let t0 = crate::now_ms();
+        loop {
+            let r = libc::waitpid(pid, &mut status, libc::WUNTRACED | libc::WNOHANG);
+            if r == pid {
+                break;
+            }
+            if crate::now_ms() - t0 > 5000 {
+                libc::kill(pid, libc::SIGKILL);
+                libc::waitpid(pid, &mut status, 0);
+                return Outcome::Other("not stopped by the stop signal".into());
+            }
+            libc::usleep(1000);
+        }
+        if !libc::WIFSTOPPED(status) {
+            return Outcome::Other(format!("ended instead of stopping (status {:#x})", status));
+        }
+        libc::kill(pid, term_sig);
+        libc::usleep(5_000);
+        libc::kill(pid, libc::SIGCONT);
+        let t0 = crate::now_ms();
+        loop {
+            let r = libc::waitpid(pid, &mut status, libc::WNOHANG);
+            if r == pid {
+                break;
+            }
+            if crate::now_ms() - t0 > 10_000 {
+                libc::kill(pid, libc::SIGKILL);
+                libc::waitpid(pid, &mut status, 0);
+                return Outcome::Other("neither died nor gave up".into());
+            }
+            libc::usleep(1000);
+        }
+        if libc::WIFSIGNALED(status) {
+            Outcome::TermBy(libc::WTERMSIG(status))
+        } else if libc::WIFEXITED(status) && libc::WEXITSTATUS(status) == 42 {
+            Outcome::Continues
+        } else {
+            Outcome::Other(format!("status {:#x}", status))
+        }
+    }
+}
+
 static STEP_GO: std::sync::atomic::AtomicBool = std::sync::atomic::AtomicBool::new(false);
 static STEP_DONE: std::sync::atomic::AtomicBool = std::sync::atomic::AtomicBool::new(false);
 
@@ -253,6 +328,9 @@ pub fn main(args: &[String]) -> i32 {
     let mut keys = std::collections::HashSet::new();
     let mut probes = 0u64;
     let mut inconclusive = None;
+    // history of the harness process itself: it has raised a signal through the library before it forks the probes (a forked
+    // process inherits whatever the library remembered then)
+    let _ = signal_hook::low_level::raise(libc::SIGWINCH);
     let mut numbers: Vec<c_int> = (1..=64).collect();
     numbers.extend([0, -1, 65, 100, 128, 1000]);
     for n in numbers.iter().cloned() {
@@ -329,6 +407,20 @@ pub fn main(args: &[String]) -> i32 {
         }
         if r.out.contains("DISPOSITION-CHANGED") || r.out.contains("FLAG-KEPT") {
             bad.push((format!("unknown-signal-side-effect-{}", n), format!("register_conditional_default({}) returned an error but left something behind: {}", n, r.out.replace('\n', " "))));
+        }
+    }
+    // ---- a terminating signal sent while the process is stopped through the emulation of a stop signal
+    for (stop_sig, term_sig) in [(libc::SIGTSTP, libc::SIGTERM), (libc::SIGTTIN, libc::SIGINT), (libc::SIGTSTP, libc::SIGUSR1)] {
+        let nat = stop_then_term(false, stop_sig, term_sig);
+        let emu = stop_then_term(true, stop_sig, term_sig);
+        probes += 2;
+        keys.insert(format!("stop-then-term:{}:{}:{:?}", stop_sig, term_sig, emu));
+        if matches!(nat, Outcome::Other(_)) {
+            inconclusive = Some(format!("stop-then-term reference run for signals {}/{}: {:?}", stop_sig, term_sig, nat));
+        } else if emu != nat {
+            bad.push((format!("default-mismatch-sig{}-while-stopped", term_sig), format!(
+                "signal {} sent while the process is stopped by signal {} (both handled by the emulation), then SIGCONT: emulation -> {:?}, kernel default -> {:?}",
+                term_sig, stop_sig, emu, nat)));
         }
     }
     // ---- a registration for the same (already managed) signal completes on another thread at the k-th instruction of
